@@ -196,7 +196,13 @@ func points(f *family, r *prng.Rand, p []float64, n int) []float64 {
 	if disc {
 		return discPoints(r, lo, hi, c, s, n)
 	}
-	return contPoints(r, lo, hi, c, s, n)
+	xs := contPoints(r, lo, hi, c, s, n)
+	if f.thetaSpace {
+		// the argument is log(theta): theta = 0, a boundary point of the Beta
+		// support, is x = -Inf in this parametrisation (theta = 1 is x = 0 = hi)
+		xs = append(xs, math.Inf(-1), -1e300, -745.2)
+	}
+	return xs
 }
 
 /* monitor: pointwise LogPdf (formula / support / type)
@@ -972,4 +978,5 @@ func Run(c *fw.Ctx) {
 	runWrappers(c)
 	runMulti(c)
 	runMultiWrappers(c)
+	runSparse(c)
 }
